@@ -130,7 +130,7 @@ def main(tier, replay):
             envr = dict(env); envr["VERIF_C13_ONLY"] = "conc"; envr["VERIF_TIER"] = "quick"; envr["GORACE"] = "halt_on_error=0 exitcode=66"
             rcr, outr = vlib.sh([exer], env=envr, timeout=900)
             races = outr.count("WARNING: DATA RACE")
-            lines_r = "\n".join(l for l in outr.splitlines() if l.startswith(("sf\t", "P\t", "bg\t", "st\t", "fs\t")))
+            lines_r = "\n".join(l for l in outr.splitlines() if l.startswith(("sf\t", "P\t", "bg\t", "st\t", "fs\t", "rf\t")))
             rc2, cmp2 = vlib.sh([modelrun], inp=lines_r + "\n", timeout=600)
             st2, _, mism2, pf2, _ = parse_cmp(cmp2)
             cov["race_run"] = {"data_races": races, "exit": rcr, "lines": st2.get("lines", 0), "oracle_failures": len(pf2), "model_mismatches": len(mism2)}
